@@ -51,14 +51,14 @@ LEVEL_NOTE = ("trusted: the shim's recording of what the real send/recv accepted
               "OpenSSL record layer, stdlib ssl on the far side")
 NSHARDS = {"quick": 12, "thorough": 16}
 TIMEOUT_S = {"quick": 240, "thorough": 1500}
-BUDGET_S = {"quick": 60, "thorough": 560}
+BUDGET_S = {"quick": 60, "thorough": 480}   # soft stop; REQUIRE below is what makes a short run inconclusive
 REQUIRE = {
     "quick": {"conservation_checks": 3000, "partial_sends": 300, "send_blocks": 150, "short_reads": 150,
               "recv_blocks_injected": 100, "real_partial_sends": 5, "wirelog_checks": 200, "tls_cases": 40,
               "pair_cases": 10, "completed_cases": 300},
-    "thorough": {"conservation_checks": 100000, "partial_sends": 10000, "send_blocks": 5000, "short_reads": 5000,
-                 "recv_blocks_injected": 3000, "real_partial_sends": 100, "wirelog_checks": 5000, "tls_cases": 2000,
-                 "pair_cases": 500, "completed_cases": 10000},
+    "thorough": {"conservation_checks": 50000, "partial_sends": 5000, "send_blocks": 2500, "short_reads": 2500,
+                 "recv_blocks_injected": 1500, "real_partial_sends": 100, "wirelog_checks": 2500, "tls_cases": 1000,
+                 "pair_cases": 250, "completed_cases": 5000},
 }
 PEAK_COUNTERS = ("peak_finish_rounds", "peak_payload_bytes")
 
